@@ -95,7 +95,7 @@ def applyMove (l : List Entry) (m : Int × Int × Int × Bool × Int) : List Ent
     heart_beat_index / num_hb_to_do on removal and what the append branch stores are the definitions regenerated
     from the source (`NV.Gen.C11.clampTo`, `rmCompensate`, `appendStore`) -/
 def setHeartBeat (w : World) (ob : Nat) (to : Int) : World :=
-  if w.dead.contains ob then w
+  if w.dead.contains ob then w           -- `if (ob->flags & O_DESTRUCTED) return 0;` (mask: NV.Gen.C11.shbGuardMask)
   else
     let to := NV.Gen.C11.clampTo to
     if to = 0 then
@@ -105,14 +105,15 @@ def setHeartBeat (w : World) (ob : Nat) (to : Int) : World :=
         let c := NV.Gen.C11.rmCompensate (index : Int) w.idx w.todo
         { w with idx := c.1, todo := c.2, hbs := applyMove w.hbs (NV.Gen.C11.rmMove (index : Int) (w.hbs.length : Int)) }
     else if hasOb ob w.hbs then
-      if to < 0 then w
+      let r := NV.Gen.C11.retuneStore to 0 0
+      if r.1 then w
       else
         match idxOf ob w.hbs with
         | none => w
         | some index =>
-          { w with hbs := w.hbs.set index { ob := ob, ticks := NV.Gen.C11.trunc16 to, interval := NV.Gen.C11.trunc16 to } }
+          { w with hbs := w.hbs.set index { ob := ob, ticks := r.2.1, interval := r.2.2 } }
     else
-      let cap := if w.cap = 0 then chunk else if w.hbs.length = w.cap then w.cap + chunk else w.cap
+      let cap := (NV.Gen.C11.growCap (w.cap : Int) (w.hbs.length : Int)).toNat
       if w.hbs.length < cap then
         let s := NV.Gen.C11.appendStore to
         { w with cap := cap, hbs := w.hbs ++ [{ ob := ob, ticks := s.1, interval := s.2 }] }
